@@ -461,67 +461,21 @@ impl Bmi2StringProcessor {
     #[cfg(target_arch = "x86_64")]
     #[target_feature(enable = "bmi1,bmi2")]
     unsafe fn extract_utf8_chars_bmi2_impl(&self, input: &[u8]) -> Result<Vec<u32>> {
-        let mut chars = Vec::new();
-        let mut i = 0;
-
-        while i < input.len() {
-            if i + 4 <= input.len() {
-                // Extract potential UTF-8 character using BEXTR
-                let char_bytes = unsafe { std::ptr::read_unaligned(input.as_ptr().add(i) as *const u32) };
-                
-                match self.decode_utf8_char_bmi2(char_bytes, &mut i) {
-                    Some(code_point) => chars.push(code_point),
-                    None => return Err(ZiporaError::invalid_data("Invalid UTF-8 character")),
-                }
-            } else {
-                // Handle remainder with scalar processing
-                let remainder = &input[i..];
-                match std::str::from_utf8(remainder) {
-                    Ok(s) => {
-                        chars.extend(s.chars().map(|c| c as u32));
-                        break;
-                    }
-                    Err(_) => return Err(ZiporaError::invalid_data("Invalid UTF-8 sequence")),
-                }
-            }
+        // Validation needs the full UTF-8 state machine (continuation bytes, overlong forms,
+        // surrogates, range); use the standard library for it, as validate_utf8_bmi2_impl does.
+        match std::str::from_utf8(input) {
+            Ok(s) => Ok(s.chars().map(|c| c as u32).collect()),
+            Err(_) => Err(ZiporaError::invalid_data("Invalid UTF-8 sequence")),
         }
-
-        Ok(chars)
     }
 
     #[cfg(target_arch = "x86_64")]
     #[target_feature(enable = "bmi1,bmi2")]
     unsafe fn utf8_to_utf16_bmi2_impl(&self, input: &[u8]) -> Result<Vec<u16>> {
-        let mut utf16_output = Vec::new();
-        let mut i = 0;
-
-        while i < input.len() {
-            if i + 4 <= input.len() {
-                // Extract UTF-8 character using BMI2
-                let char_bytes = unsafe { std::ptr::read_unaligned(input.as_ptr().add(i) as *const u32) };
-                
-                match self.decode_utf8_char_bmi2(char_bytes, &mut i) {
-                    Some(code_point) => {
-                        // Convert to UTF-16 using BMI2 operations
-                        let utf16_chars = self.encode_utf16_bmi2(code_point);
-                        utf16_output.extend_from_slice(&utf16_chars);
-                    }
-                    None => return Err(ZiporaError::invalid_data("Invalid UTF-8 character")),
-                }
-            } else {
-                // Handle remainder with scalar processing
-                let remainder = &input[i..];
-                match std::str::from_utf8(remainder) {
-                    Ok(s) => {
-                        utf16_output.extend(s.encode_utf16());
-                        break;
-                    }
-                    Err(_) => return Err(ZiporaError::invalid_data("Invalid UTF-8 sequence")),
-                }
-            }
+        match std::str::from_utf8(input) {
+            Ok(s) => Ok(s.encode_utf16().collect()),
+            Err(_) => Err(ZiporaError::invalid_data("Invalid UTF-8 sequence")),
         }
-
-        Ok(utf16_output)
     }
 
     #[cfg(target_arch = "x86_64")]
@@ -1004,69 +958,6 @@ impl Bmi2StringProcessor {
         }
 
         true
-    }
-
-    #[cfg(target_arch = "x86_64")]
-    #[inline]
-    fn decode_utf8_char_bmi2(&self, char_bytes: u32, position: &mut usize) -> Option<u32> {
-        let first_byte = (char_bytes & 0xFF) as u8;
-        
-        match first_byte {
-            0x00..=0x7F => {
-                *position += 1;
-                Some(first_byte as u32)
-            }
-            0xC0..=0xDF => {
-                if *position + 1 < 4 {
-                    let second_byte = ((char_bytes >> 8) & 0xFF) as u8;
-                    *position += 2;
-                    Some(((first_byte as u32 & 0x1F) << 6) | (second_byte as u32 & 0x3F))
-                } else {
-                    None
-                }
-            }
-            0xE0..=0xEF => {
-                if *position + 2 < 4 {
-                    let second_byte = ((char_bytes >> 8) & 0xFF) as u8;
-                    let third_byte = ((char_bytes >> 16) & 0xFF) as u8;
-                    *position += 3;
-                    Some(((first_byte as u32 & 0x0F) << 12) | 
-                         ((second_byte as u32 & 0x3F) << 6) | 
-                         (third_byte as u32 & 0x3F))
-                } else {
-                    None
-                }
-            }
-            0xF0..=0xF7 => {
-                if *position + 3 < 4 {
-                    let second_byte = ((char_bytes >> 8) & 0xFF) as u8;
-                    let third_byte = ((char_bytes >> 16) & 0xFF) as u8;
-                    let fourth_byte = ((char_bytes >> 24) & 0xFF) as u8;
-                    *position += 4;
-                    Some(((first_byte as u32 & 0x07) << 18) | 
-                         ((second_byte as u32 & 0x3F) << 12) | 
-                         ((third_byte as u32 & 0x3F) << 6) | 
-                         (fourth_byte as u32 & 0x3F))
-                } else {
-                    None
-                }
-            }
-            _ => None,
-        }
-    }
-
-    #[cfg(target_arch = "x86_64")]
-    #[inline]
-    fn encode_utf16_bmi2(&self, code_point: u32) -> Vec<u16> {
-        if code_point <= 0xFFFF {
-            vec![code_point as u16]
-        } else {
-            let adjusted = code_point - 0x10000;
-            vec![
-                0xD800 + (adjusted >> 10) as u16,
-                0xDC00 + (adjusted & 0x3FF) as u16,
-            ]
-        }
     }
 
     #[cfg(target_arch = "x86_64")]
